@@ -146,6 +146,22 @@ def oracle_controller(case, obs):
     for i, (a, b) in enumerate(zip(obs["reports"], ref["reports"])):
         if a[:2] != b:
             out.append(("captured report #%d is %s, expected %s" % (i, a[:2], b), "report-contents"))
+    # the logging part of a report taken while the capture is installed (between a setup and its teardown, properly
+    # bracketed): every record logged since that setup, whatever the other two switches say
+    seq0 = [op[0] for op in case["ops"] if op[0] in ("setup", "teardown")]
+    if case["cfg"]["log"] and all(a != b for a, b in zip(seq0, seq0[1:])) and (not seq0 or seq0[0] == "setup"):
+        installed, since, k = False, [], 0
+        for op in case["ops"]:
+            if op[0] == "setup":
+                installed, since = True, []
+            elif op[0] == "teardown":
+                installed = False
+            elif op[0] == "write" and op[1] == "log" and installed:
+                since.append(op[2])
+            elif op[0] == "report":
+                if installed and k < len(obs["reports"]) and len(obs["reports"][k]) > 2 and obs["reports"][k][2] != since:
+                    out.append(("captured report #%d has logging part %s, logged since setup: %s" % (k, obs["reports"][k][2], since), "report-contents"))
+                k += 1
     # every start/stop pair must give the real streams back
     if case["ops"] and case["ops"][-1][0] == "stop":
         if not obs["out_real"] or not obs["err_real"]:
